@@ -53,8 +53,12 @@ def apply_unified_diff(texts: dict, diff_text: str):
             return None
         path = m.group(1)
         if path not in texts:
-            return None
-        src = texts[path].split('\n')
+            if re.search(r'^--- /dev/null', chunk, flags=re.M):
+                texts = dict(texts)
+                texts[path] = ''            # a file created by the patch
+            else:
+                return None
+        src = texts[path].split('\n') if texts[path] else []
         res, at = [], 0
         hunks = re.split(r'^(@@ -\d+(?:,\d+)? \+\d+(?:,\d+)? @@).*$', chunk, flags=re.M)[1:]
         for h in range(0, len(hunks), 2):
